@@ -378,8 +378,34 @@ async fn dump_parts(srv: &mut MainEventLoop) -> Value {
 		let a = accounts[&n].read().await;
 		let mut eps: Vec<String> = a.endpoints.keys().cloned().collect();
 		eps.sort();
+		let key_thumb = |k: &crate::account::AccountKey| k.key.jwk_public_key().ok().and_then(|j| cu::thumbprint(&j).ok());
+		let key_hash = |k: &crate::account::AccountKey| k.key.public_key_to_pem().ok().map(|p| cu::sha256(&p));
+		let cur_hash = key_hash(&a.current_key);
+		let contacts_hash = cu::sha256(a.contacts.iter().map(|c| c.to_string()).collect::<Vec<String>>().join("").as_bytes());
+		let mut epd = serde_json::Map::new();
+		for (k, e) in a.endpoints.iter() {
+			let which_key = if Some(&e.key_hash) == cur_hash.as_ref() {
+				"current".to_string()
+			} else if e.key_hash.is_empty() {
+				"none".to_string()
+			} else {
+				match a.past_keys.iter().position(|p| key_hash(p).as_ref() == Some(&e.key_hash)) {
+					Some(i) => format!("past{i}"),
+					None => "unknown".to_string(),
+				}
+			};
+			epd.insert(k.clone(), json!({
+				"account_url": e.account_url,
+				"key": which_key,
+				"contacts_current": e.contacts_hash == contacts_hash,
+				"has_eab_hash": !e.external_account_hash.is_empty(),
+			}));
+		}
 		av.push(json!({
 			"name": a.name,
+			"endpoint_details": epd,
+			"current_thumb": key_thumb(&a.current_key),
+			"past_thumbs": a.past_keys.iter().map(key_thumb).collect::<Vec<Option<String>>>(),
 			"endpoints": eps,
 			"contacts": a.contacts.iter().map(|c| c.to_string()).collect::<Vec<String>>(),
 			"key_type": a.current_key.key.key_type.to_string(),
@@ -541,6 +567,7 @@ fn run_phase(phase: &Value, dir: &str, cas: &[CaServer], ctl: &str) -> Value {
 				}
 			}
 			o["t_end_ms"] = json!(super::vnow_ms());
+			o["parts_after"] = dump_parts(&mut srv).await;
 			// final observation after the loop is dropped
 			let mut finals = serde_json::Map::new();
 			{
